@@ -64,6 +64,33 @@ signature file *.gs; the original is only read once, to make the copy, and re-ha
            file again: same bytes, new mtime), whether a command on a read-only directory fails.
            Model op 1803 as for `history` (the state is below the model: its genome file is an abstract value).
 
+  dbschema (kind `history`, state key `schema`; streams history-dbschema / history-dbschema-random; the `badload` steps of kind
+           `sequence`) the state dimension above varies HOW the genome file stores a complete reference data base; this one
+           varies WHAT is in the file the user points gambit at -- an INCOMPLETE or FOREIGN genome file, made by the harness
+           from the shipped one with the sqlite3 module (list of modifications, applied in order, combined with the
+           dimensions above):
+             drop:T          a model table missing (taxa | genomes | genome_annotations | genome_sets; one, several, all) or the
+                             alembic_version table missing;  rename:T  the table is there under another name
+             dropindex:N | * an index / every index missing;  addtable | addcol:T | addindex  unknown table / column / index
+             dropcol:T.C     an older schema: a column missing;  rebuild:T  the table re-imported by another tool (rows kept,
+                             no constraint, no index);  norows:T | twosets  no rows / a second genome set
+             file:zero | file:garbage | file:truncated   a zero-byte file, a non-SQLite file, the first 5000 bytes, under the
+                             .gdb name;  file:notables | file:foreign | file:schema-only  a valid SQLite file with no table,
+                             with another application's tables, with the tables of a reference data base and no row
+           x read-side uses: EVERY WAY THE LIBRARY LOADS a data base -- ReferenceDatabase.load_from_dir(dir), .load(gdb, gs),
+           .locate_files + .load, load_genomeset(gdb) alone, CLIContext.get_database() (invocation `load`, key `via` = dir |
+           files | located | gset | cli) -- followed by what a client does next (genomes, signatures, a library query, in-place
+           post-processing, an in-memory edit + flush + commit on the session it was given: key `commit`), the CLI commands and
+           the three ways to a session of the streams above, with failure injection at the n-th SQL statement.  MOST OF THESE
+           CALLS FAIL on such a file (failing commands are in the property's quantifier); the bytes are compared all the same.
+           JUDGED after every invocation, whatever its outcome: SHA-256 and size of the genome file and of the signature file
+           are those the harness left; no write statement reached a cursor (DDL may bypass a statement recorder: the hashes
+           are what counts); commit() did not return normally; session class / handle mode as above.  NOT judged: whether a
+           call succeeds or which exception it raises, side files, mtime, the number of sessions / handles a command opens.
+           In the `sequence` stream a `badload` step (key `via` = dir | files | gset) points the library at a truncated /
+           zero-byte / table-less / taxa-less genome file between the other steps; the bytes of the files of that
+           directory are compared after the step (before: such steps were run and not looked at).
+
   sequence (kind `sequence`, streams sequence-fixed / sequence-random) -- STATE AND ALIASING.  The streams above make the
            objects of a case, use them once (or in one fixed pattern) and drop them.  A sequence case is a script of 2-7
            calls over a small POOL of long-lived objects that the steps share and that stay alive until the end of the
@@ -127,6 +154,13 @@ signature file *.gs; the original is only read once, to make the copy, and re-ha
                                                      a new click context and CLIContext per invocation: only process-wide state
                                                      (module globals, class attributes, OpenMP thread count, SQLAlchemy / h5py
                                                      registries) survives                            old+seq old old seq old+seq(4)
+           load_genomeset / ReferenceDatabase.load / .load_from_dir / .locate_files + .load / CLIContext.get_database / file_sessionmaker /
+           CLI commands, pointed at an INCOMPLETE or FOREIGN genome file (table / index / column missing, unknown objects, zero-byte,
+           non-SQLite, truncated, table-less, another application's file): streams history-dbschema[-random], `badload` steps
+                                                     the genome FILE itself: its schema objects (tables, indexes, columns) and
+                                                     bytes; the engine / session of a load that failed
+                                                                                                     dbschema: >= 3 loads through >= 2 entry points + 1 CLI command
+                                                                                                     + 1 session per file, bytes after each; seq: badload between steps (c)
            columns: a = reused across >= 2 calls whose other arguments differ (other data base / size / order / options), both orders;
            b = caller's object compared with what it was before, after every step; c = a call that fails part-way in between, then the
            good call again on the same thread and objects; d = same call twice, same result; e = second thread / forked workers.
@@ -164,9 +198,19 @@ RULE = ('session: (how the session was obtained, autoflush, operation list) -> p
         'VACUUM, user_version, application_id, text encoding, read-only on disk, HDF5 format version; list of invocations '
         'with failure points) -> SHA-256 and size of both files after every invocation; non-trivial: the state differs from '
         'the shipped one in >= 1 dimension and >= 1 invocation reads the data base to completion. '
+        'history with a state that has a `schema` (streams history-dbschema / history-dbschema-random): (INCOMPLETE / FOREIGN genome file: '
+        'model tables taxa / genomes / genome_annotations / genome_sets dropped one at a time, several, all; table renamed; index dropped; '
+        'unknown table / column / index; column missing (older schema); table rebuilt without constraints; no rows / two genome sets; '
+        'zero-byte file; non-SQLite file; truncated file; SQLite file without tables / with foreign tables / with the schema and no rows '
+        '-- combined with the persistent-state dimensions; list of invocations: library loads via load_from_dir / load / locate_files + load '
+        '/ load_genomeset / CLIContext.get_database with follow-up use, CLI commands, sessions, failure points) -> SHA-256 and size of both '
+        'files after every invocation WHATEVER ITS OUTCOME, write statements, commit; non-trivial: >= 1 invocation got as far as a session '
+        'on that genome file beginning a transaction (it may then fail: most do). '
         'sequence (streams sequence-fixed / sequence-random): script of 2-7 calls over a pool of long-lived objects shared by the '
         'steps (data base objects, session makers and open sessions, signature handles, CLI contexts, QueryParams objects, query '
-        'arrays) against two different data bases, a private one a writing tool works on in between, malformed inputs -> after every '
+        'arrays) against two different data bases, a private one a writing tool works on in between, malformed inputs (a `badload` step '
+        'points load_from_dir / load / load_genomeset at a truncated / zero-byte / table-less / taxa-less genome file: the bytes of the '
+        'files of that directory are compared after the step) -> after every '
         'step the C18 predicate on every directory of the pool, caller objects unmodified, same call same result (vs freshly loaded '
         'objects; sessions / handles vs the session / store machine); non-trivial: >= 1 pool object is used by >= 2 steps, >= 1 step '
         'completes, and the script uses >= 2 data bases or contains >= 1 failing step or >= 1 repeated call')
@@ -193,6 +237,17 @@ TRUSTED = ['SQLite / pysqlite: a connection that executes only SELECT/PRAGMA doe
            'the harness with the sqlite3 / h5py modules on private copies (trusted to produce what they are asked for: the '
            'SQLite header fields of every state are recorded in the replay values); judged there: bytes (SHA-256, size) of '
            'the two files, write statements, commit, session class, handle mode -- not mtime, not side files',
+           'dbschema stream (history-dbschema / history-dbschema-random, badload steps of the sequence stream): the incomplete / foreign '
+           'genome files are produced by the harness with the sqlite3 module on private copies (DROP TABLE / DROP INDEX / ALTER TABLE ADD, '
+           'DROP COLUMN, RENAME / CREATE TABLE AS SELECT / DELETE / INSERT; files written byte by byte), trusted to produce what they are '
+           'asked for: the schema objects (sqlite_master, read through a mode=ro connection) and the SQLite header of every such file are '
+           'recorded in the replay values; that a read-side call changed nothing is decided by SHA-256 + size of the two files after '
+           'EVERY invocation whatever its outcome (schema statements -- CREATE TABLE / CREATE INDEX / ALTER TABLE -- do not go through '
+           'the ORM flush, SQLite commits them at once, and they need not pass the statement recorder: the recorder is a second opinion, '
+           'the hashes decide); the model (op 1803) knows no schema -- its genome file is an abstract value that no read-side micro '
+           'operation changes -- so for these states only the property predicate is judged, not the number of sessions / handles a '
+           'command opens; that SQLite itself does not write when a reader meets such a file (zero-byte, foreign, truncated) is explored '
+           'by the same hashes on the unchanged code, not assumed',
            'the mapping invocation -> micro operations (Model/C18.v compile) is a summary of the CLI code paths; only '
            'its observable consequences (sessions opened, handle modes, nothing written) are compared',
            'sequence stream: data base B, the malformed files / directories and the genome-field table the data base objects are '
@@ -1170,7 +1225,12 @@ def k_store(ctx, cases):
 # uv / appid  PRAGMA user_version / application_id;  enc  utf8 | utf16le | utf16be (rebuilt from a dump)
 # ro       none | file (both files chmod 0444) | dir (files 0444 and directory 0555)
 # sig      signature file: orig | latest (rewritten with libver='latest')
-STATE_DEFAULT = dict(jm='delete', edit='none', sidecar='none', page=0, av=0, vacuum=0, uv=0, appid=0, enc='utf8', ro='none', sig='orig')
+# schema   (streams history-dbschema / history-dbschema-random) list of modifications that make the genome file an INCOMPLETE or
+#          FOREIGN one, applied in order to the shipped file before everything else (see _apply_schema):
+#          drop:T | dropindex:NAME | dropindex:* | addtable | addcol:T | addindex | dropcol:T.C | rename:T | rebuild:T |
+#          norows:T | twosets | file:zero | file:garbage | file:truncated | file:notables | file:foreign | file:schema-only
+STATE_DEFAULT = dict(jm='delete', edit='none', sidecar='none', page=0, av=0, vacuum=0, uv=0, appid=0, enc='utf8', ro='none', sig='orig',
+                     schema=[])
 JOURNAL_MODES = ('delete', 'wal', 'truncate', 'persist', 'memory', 'off')
 PAGE_SIZES = (512, 1024, 2048, 4096, 8192, 16384, 32768, 65536)
 ENCODINGS = {'utf8': 'UTF-8', 'utf16le': 'UTF-16le', 'utf16be': 'UTF-16be'}
@@ -1198,12 +1258,158 @@ def _sqlite_header(path):
 		return dict(error=repr(e)[:80])
 
 
+MODEL_TABLES = ('genomes', 'genome_sets', 'taxa', 'genome_annotations')
+SCHEMA_RAW_FILES = ('zero', 'garbage', 'truncated')              # the genome file is no SQLite data base at all
+SCHEMA_SQLITE_FILES = ('notables', 'foreign', 'schema-only')     # a valid SQLite file that is not (yet) a reference data base
+SCHEMA_DROPCOLS = ('taxa.report', 'taxa.distance_threshold', 'taxa.ncbi_id', 'taxa.extra', 'genomes.extra',
+                   'genome_sets.extra', 'genome_sets.description', 'genome_annotations.organism')
+
+
+def _sqlite_objects(path):
+	"""names of the schema objects of an SQLite file (read-only connection; for replay values and messages)"""
+	import sqlite3
+	try:
+		con = sqlite3.connect('file:%s?mode=ro' % path, uri=True)
+		try:
+			return sorted('%s %s' % (t, n) for t, n in con.execute('SELECT type, name FROM sqlite_master') if not n.startswith('sqlite_'))
+		finally:
+			con.close()
+	except Exception as e:
+		return 'not readable as an SQLite data base (%s, %d bytes)' % (type(e).__name__, os.path.getsize(path) if os.path.exists(path) else -1)
+
+
+def _apply_schema(mods, g):
+	"""make the genome file g an INCOMPLETE / FOREIGN one, the way other tools (an older gambit, a data base browser, an
+	export script, an interrupted download) leave such files; done with the sqlite3 module, every connection closed on
+	return.  -> True iff the file is no SQLite data base any more (the SQLite dimensions of the state do not apply)"""
+	import sqlite3
+	raw = False
+	for mod in mods:
+		op, _, arg = str(mod).partition(':')
+		if op == 'file':
+			if arg == 'zero':
+				data = b''
+			elif arg == 'garbage':
+				data = b'<html><body>404 Not Found: the data base you asked for is not here</body></html>\n' * 60
+			elif arg == 'truncated':
+				with open(g, 'rb') as f:
+					data = f.read(5000)
+			elif arg in SCHEMA_SQLITE_FILES:
+				data = None
+			else:
+				raise ValueError(mod)
+			if data is not None:
+				with open(g, 'wb') as f:
+					f.write(data)
+				raw = True
+				continue
+			ddl = []
+			if arg == 'schema-only':
+				con = sqlite3.connect(g)
+				ddl = [r[0] for r in con.execute("SELECT sql FROM sqlite_master WHERE sql IS NOT NULL ORDER BY type = 'index', rowid")]
+				con.close()
+			os.remove(g)
+			con = sqlite3.connect(g, isolation_level=None)
+			try:
+				if arg == 'notables':
+					con.execute('CREATE TABLE c18_t (x)')
+					con.execute('DROP TABLE c18_t')
+					con.execute('VACUUM')
+				elif arg == 'foreign':
+					con.execute('CREATE TABLE samples (id INTEGER PRIMARY KEY, name VARCHAR NOT NULL, collected DATE)')
+					con.execute('CREATE TABLE runs (id INTEGER PRIMARY KEY, sample_id INTEGER REFERENCES samples (id), path VARCHAR)')
+					con.execute('CREATE INDEX ix_runs_sample_id ON runs (sample_id)')
+					con.execute('BEGIN')
+					for i in range(40):
+						con.execute('INSERT INTO samples VALUES (?, ?, ?)', (i, 'sample %d' % i, '2021-08-18'))
+						con.execute('INSERT INTO runs VALUES (?, ?, ?)', (i, i, '/data/run%d.fastq.gz' % i))
+					con.execute('COMMIT')
+				else:
+					for sql in ddl:
+						con.execute(sql)
+			finally:
+				con.close()
+			raw = False
+			continue
+		if raw:
+			continue
+		con = sqlite3.connect(g, isolation_level=None)
+		try:
+			tables = {r[0] for r in con.execute("SELECT name FROM sqlite_master WHERE type = 'table'")}
+			if op == 'drop':
+				con.execute('DROP TABLE IF EXISTS "%s"' % arg)
+			elif op == 'dropindex':
+				names = [r[0] for r in con.execute("SELECT name FROM sqlite_master WHERE type = 'index' AND sql IS NOT NULL")]
+				for n in (names if arg == '*' else [n for n in names if n == arg]):
+					con.execute('DROP INDEX "%s"' % n)
+			elif op == 'addtable':
+				con.execute('CREATE TABLE IF NOT EXISTS c18_lab_notes (id INTEGER PRIMARY KEY, genome_key VARCHAR, note TEXT)')
+				con.execute("INSERT INTO c18_lab_notes (genome_key, note) VALUES ('x/1', 'table added with a data base browser')")
+			elif op == 'addcol':
+				if arg in tables:
+					con.execute('ALTER TABLE "%s" ADD COLUMN c18_added_by_another_tool VARCHAR' % arg)
+			elif op == 'addindex':
+				if 'genomes' in tables:
+					con.execute('CREATE INDEX IF NOT EXISTS c18_ix_genomes_description ON genomes (description)')
+			elif op == 'dropcol':
+				t, _, c = arg.partition('.')
+				if t in tables:
+					for ix in [r[1] for r in con.execute('PRAGMA index_list("%s")' % t) if r[3] == 'c']:
+						if any(r[2] == c for r in con.execute('PRAGMA index_info("%s")' % ix)):
+							con.execute('DROP INDEX "%s"' % ix)
+					con.execute('ALTER TABLE "%s" DROP COLUMN "%s"' % (t, c))
+			elif op == 'rename':
+				if arg in tables:
+					con.execute('ALTER TABLE "%s" RENAME TO "%s_old"' % (arg, arg))
+			elif op == 'rebuild':
+				# what an export / import through another tool leaves: the rows, no constraint, no index
+				if arg in tables:
+					con.execute('CREATE TABLE c18_rebuild AS SELECT * FROM "%s"' % arg)
+					con.execute('DROP TABLE "%s"' % arg)
+					con.execute('ALTER TABLE c18_rebuild RENAME TO "%s"' % arg)
+			elif op == 'norows':
+				if arg in tables:
+					con.execute('DELETE FROM "%s"' % arg)
+			elif op == 'twosets':
+				if 'genome_sets' in tables:
+					con.execute("INSERT INTO genome_sets (\"key\", version, name) VALUES ('c18/second', '1.0', 'a second genome set')")
+			else:
+				raise ValueError(mod)
+		finally:
+			con.close()
+	return raw
+
+
 def _build_state(st, d):
 	"""d holds fresh copies of the shipped genome and signature file; leave them the way a user's tools could have:
 	every connection of the builder is closed when this returns"""
-	import sqlite3
 	g = os.path.join(d, 'ref-genomes.gdb')
 	gs = os.path.join(d, 'ref-signatures.gs')
+	raw = _apply_schema(st.get('schema') or [], g)
+	# (listed now, while the file is in its plain journal mode with no side file: a connection opened on the finished state, even a
+	# read-only one, could create a -shm file next to a leftover -wal; the steps below add or remove no schema object)
+	objects = _sqlite_objects(g) if st.get('schema') else None
+	if not raw:
+		_build_sqlite_state(st, g)
+	if st['sig'] == 'latest':
+		import h5py
+		tmp = gs + '.tmp'
+		with h5py.File(gs, 'r') as a, h5py.File(tmp, 'w', libver='latest') as b:
+			for k in a.attrs:
+				b.attrs.create(k, a.attrs[k])
+			for name in a:
+				a.copy(name, b)
+		os.replace(tmp, gs)
+	if st['ro'] in ('file', 'dir'):
+		for n in os.listdir(d):
+			os.chmod(os.path.join(d, n), 0o444)
+		if st['ro'] == 'dir':
+			os.chmod(d, 0o555)
+	return objects
+
+
+def _build_sqlite_state(st, g):
+	import sqlite3
 	page, av = int(st['page']), int(st['av'])
 	if st['enc'] != 'utf8':
 		src = sqlite3.connect(g)
@@ -1232,6 +1438,13 @@ def _build_state(st, d):
 		edit = st['edit']
 		if st['sidecar'] != 'none' and edit == 'none':
 			edit = 'desc'       # leftover frames need an edit made in WAL mode
+		if edit == 'desc' and st.get('schema'):
+			# (an incomplete / foreign genome file may have no genomes table to edit: the other tool edits a table of its own)
+			try:
+				if con.execute('SELECT count(*) FROM genomes WHERE id = 1').fetchone()[0] != 1:
+					edit = 'free'
+			except sqlite3.Error:
+				edit = 'free'
 		if edit == 'desc':
 			con.execute('BEGIN')
 			con.execute("UPDATE genomes SET description = 'edited with another tool' WHERE id = 1")
@@ -1255,20 +1468,6 @@ def _build_state(st, d):
 		con.close()
 	for suffix in keep:
 		os.replace(g + suffix + '.keep', g + suffix)
-	if st['sig'] == 'latest':
-		import h5py
-		tmp = gs + '.tmp'
-		with h5py.File(gs, 'r') as a, h5py.File(tmp, 'w', libver='latest') as b:
-			for k in a.attrs:
-				b.attrs.create(k, a.attrs[k])
-			for name in a:
-				a.copy(name, b)
-		os.replace(tmp, gs)
-	if st['ro'] in ('file', 'dir'):
-		for n in os.listdir(d):
-			os.chmod(os.path.join(d, n), 0o444)
-		if st['ro'] == 'dir':
-			os.chmod(d, 0o555)
 
 
 def _writable_again(d):
@@ -1295,7 +1494,7 @@ class _InState:
 			shutil.copy(os.path.join(env['pristine'], n), os.path.join(d, n))
 		self.saved = {k: env[k] for k in ('db', 'gdb', 'gs', 'base')}
 		try:
-			_build_state(self.st, d)
+			self.objects = _build_state(self.st, d)
 		except Exception:
 			_writable_again(d)
 			shutil.rmtree(d, ignore_errors=True)
@@ -1449,6 +1648,26 @@ def _model_inv(inv):
 	return [c, _fp(inv)]
 
 
+def _edit_and_commit(session, gset):
+	"""the client edits the genome set it loaded, in memory, and tries to make that permanent through the session the
+	library gave it (the library's default session): flush() must send nothing (judged by the statement recorder and the
+	file hashes), commit() must refuse.  -> text of the problem or None"""
+	name = gset.name
+	try:
+		gset.name = (name or '') + ' (edited by the client, in memory)'
+		session.flush()
+		try:
+			session.commit()
+		except Exception:
+			return None
+		return 'commit() on the session obtained from the library (a %s) returned normally with an edit pending' % type(session).__mro__[1].__name__
+	finally:
+		try:
+			session.rollback()
+		except Exception:
+			pass
+
+
 def _run_invocation(inv, idx, strict=True):
 	"""-> dict(status=..., detail=...) ; everything else is read from the recorders.  strict=False (data base in a
 	generated persistent state): library sessions / handles are judged on their per-operation observables (bytes, write
@@ -1496,10 +1715,38 @@ def _run_invocation(inv, idx, strict=True):
 			if res.exit_code != 0:
 				status = 'failed'
 				detail = (repr(res.exception) + ' ' + (res.output or '')[-120:]).strip()
+		elif cmd == 'load' and inv.get('via') == 'gset':
+			# the genome file alone, through the library's load_genomeset(): the default session and the genome set
+			from gambit.db import load_genomeset
+			n = inv.get('n', 1)
+			session, gset = load_genomeset(gdb)
+			try:
+				_ = gset.key, gset.version, gset.name
+				_ = gset.genomes.count()
+				for g in gset.genomes.limit(n):
+					_ = g.taxon, g.key
+				if inv.get('commit'):
+					pr = _edit_and_commit(session, gset)
+					if pr:
+						status, detail = 'problem', pr
+			finally:
+				session.close()
+				del session, gset
 		elif cmd == 'load':
 			from gambit.db import ReferenceDatabase
 			from gambit.query import query, QueryParams
-			rdb = ReferenceDatabase.load_from_dir(db)
+			via = inv.get('via', 'dir')
+			if via == 'dir':
+				rdb = ReferenceDatabase.load_from_dir(db)
+			elif via == 'files':
+				rdb = ReferenceDatabase.load(gdb, gs)
+			elif via == 'located':
+				rdb = ReferenceDatabase.load(*ReferenceDatabase.locate_files(db))
+			elif via == 'cli':
+				from gambit.cli.common import CLIContext
+				rdb = CLIContext(cli.make_context('gambit', ['-d', db, 'query'])).get_database()
+			else:
+				raise ValueError(via)
 			n = inv.get('n', 1)
 			for i in range(min(n, len(rdb.signatures))):
 				_ = rdb.signatures[i]
@@ -1527,6 +1774,10 @@ def _run_invocation(inv, idx, strict=True):
 					held.extend(got)
 					eff += _mutate_all(got, st[1])
 					del got
+				if inv.get('commit'):
+					pr = _edit_and_commit(rdb.session, rdb.genomeset)
+					if pr:
+						status, detail = 'problem', pr
 				if inv.get('close'):
 					rdb.signatures.close()
 					rdb.session.close()
@@ -1606,10 +1857,11 @@ def _history_case(ctx, c, m, mflags_ok, holder):
 	env = _env()
 	strict = holder is None
 	rec = env['rec']
-	completed = failed = edits = 0
+	completed = failed = edits = opened = 0
 	bad = None
 	steps = []
 	unjudged = False
+	schema = bool(holder is not None and holder.st.get('schema'))
 	for idx, inv in enumerate(c['invs']):
 		n_st, n_cl, n_md, n_j = len(rec['stmts']), len(rec['classes']), len(rec['modes']), len(rec['journal'])
 		r = _run_invocation(inv, idx, strict)
@@ -1623,6 +1875,12 @@ def _history_case(ctx, c, m, mflags_ok, holder):
 				unjudged = True
 				ctx.count('history:dbstate-side-file-or-mtime-change-not-judged')
 			if df:
+				if holder.objects is not None:
+					was, is_ = holder.objects, _sqlite_objects(env['gdb'])
+					if isinstance(was, list) and isinstance(is_, list):
+						df.append(f'schema objects that APPEARED in the genome file: {[x for x in is_ if x not in was]}, that are gone: {[x for x in was if x not in is_]}')
+					else:
+						df.append(f'schema objects of the genome file: {was} -> {is_}')
 				df.append(f'SQLite header of the genome file {holder.header} -> {_sqlite_header(env["gdb"])}')
 		rp_gdb, rp_gs = os.path.realpath(env['gdb']), os.path.realpath(env['gs'])
 		stm = sorted({x[1] for x in rec['stmts'][n_st:] if x[0] == rp_gdb})
@@ -1662,6 +1920,8 @@ def _history_case(ctx, c, m, mflags_ok, holder):
 			completed += 1
 		if r['status'] == 'failed':
 			failed += 1
+		if classes:
+			opened += 1     # a session on the genome file began a transaction (whatever became of the call)
 		if inv['cmd'] in ('libsession', 'libstore'):
 			edits += 1
 		elif r.get('eff'):
@@ -1675,6 +1935,10 @@ def _history_case(ctx, c, m, mflags_ok, holder):
 	ctx.count('history:invocations', len(steps))
 	if strict:
 		ctx.case(c, nontrivial=(len(c['invs']) >= 2 and completed >= 1 and (failed + edits) >= 1))
+	elif schema:
+		ctx.count('history:dbschema-invocations', len(steps))
+		ctx.count('history:dbschema-invocations-that-failed', failed)
+		ctx.case(c, nontrivial=(opened >= 1))
 	else:
 		ctx.count('history:dbstate-invocations', len(steps))
 		ctx.case(c, nontrivial=(completed >= 1 and holder.st != STATE_DEFAULT))
@@ -1684,7 +1948,8 @@ def _history_case(ctx, c, m, mflags_ok, holder):
 			_restore()
 		else:
 			ctx.violation('history', c, f'data base in state [{_state_text(c["state"])}]: {bad}', impl=steps, model=m,
-			              state=dict(holder.st), sqlite_header_of_state=holder.header)
+			              state=dict(holder.st), sqlite_header_of_state=holder.header,
+			              **(dict(schema_objects_of_state=holder.objects) if holder.objects is not None else {}))
 		return
 	if m is None or m == [2]:
 		if m == [2]:
@@ -1699,6 +1964,10 @@ def _history_case(ctx, c, m, mflags_ok, holder):
 		if gch or sch or nch or jr or nst or ever or any(x != mflags_ok for x in mcl) or any(x != 0 for x in mmd):
 			ctx.broke('correspondence history', f'the MODEL predicts a modification for invocation {idx} of {c}: {mi}')
 		# completed CLI / load invocations: same number of sessions and signature-file opens as the model's command
+		# (the model's command summary is that of a COMPLETE data base loaded as a whole: not compared for load_genomeset()
+		# alone, nor for an incomplete / foreign genome file, where a command may stop or go on at another point)
+		if schema or inv.get('via') == 'gset':
+			continue
 		if st['status'] == 'ok' and not inv.get('fail') and inv['cmd'] in ('query', 'querysig', 'dist', 'create', 'info-db', 'info-file', 'tree', 'load'):
 			if st['sessions'] != len(mcl) or st['opens'] != len(mmd):
 				ctx.broke('correspondence history (sessions / handles opened by a command)',
@@ -1715,7 +1984,7 @@ SEQ_PARAMS = [dict(), dict(chunksize=7, report_closest=3), dict(chunksize=None, 
 SEQ_PARAM_DEFAULTS = dict(classify_strict=False, chunksize=1000, report_closest=10)
 SEQ_VIAS = ('dir', 'files', 'cli', 'cli2', 'fresh')
 SEQ_BAD_FILES = ('trunc', 'nothdf', 'missing', 'empty')
-SEQ_BAD_DIRS = ('truncgdb', 'truncgs', 'nofiles', 'twogdb')
+SEQ_BAD_DIRS = ('truncgdb', 'truncgs', 'nofiles', 'twogdb', 'zerogdb', 'notaxa', 'notables')
 
 
 class _SeqProblem(Exception):
@@ -1812,18 +2081,42 @@ def _seq_env():
 		sq['badfile'][k] = p
 	sq['badfile']['missing'] = os.path.join(bad, 'missing.gs')
 	sq['baddir'] = {}
-	for k, content in dict(truncgdb={DB_FILES[0]: raw_gdb[:5000], DB_FILES[1]: raw_gs}, truncgs={DB_FILES[0]: raw_gdb, DB_FILES[1]: raw_gs[:3000]},
-	                       nofiles={}, twogdb={'a.gdb': raw_gdb, 'b.gdb': raw_gdb, DB_FILES[1]: raw_gs}).items():
-		dd = os.path.join(bad, k)
-		os.makedirs(dd)
-		for n, data in content.items():
-			with open(os.path.join(dd, n), 'wb') as f:
-				f.write(data)
-		sq['baddir'][k] = dd
+	sq['badbytes'] = {}
+	for k in SEQ_BAD_DIRS:
+		sq['baddir'][k] = os.path.join(bad, k)
+		_make_baddir(sq, k)
 	sq['ref'] = {}
 	env['seq'] = sq
 	_restore_B()
 	return sq
+
+
+def _make_baddir(sq, k):
+	"""(re)create the malformed / incomplete data base directory k and note the bytes of its files"""
+	env = _env()
+	dd = sq['baddir'][k]
+	if os.path.exists(dd):
+		shutil.rmtree(dd)
+	os.makedirs(dd)
+	raw_gs = open(os.path.join(env['pristine'], DB_FILES[1]), 'rb').read()
+	raw_gdb = open(os.path.join(env['pristine'], DB_FILES[0]), 'rb').read()
+	content = dict(truncgdb={DB_FILES[0]: raw_gdb[:5000], DB_FILES[1]: raw_gs}, truncgs={DB_FILES[0]: raw_gdb, DB_FILES[1]: raw_gs[:3000]},
+	               nofiles={}, twogdb={'a.gdb': raw_gdb, 'b.gdb': raw_gdb, DB_FILES[1]: raw_gs},
+	               zerogdb={DB_FILES[0]: b'', DB_FILES[1]: raw_gs})
+	for n, data in content.get(k, {DB_FILES[0]: raw_gdb, DB_FILES[1]: raw_gs}).items():
+		with open(os.path.join(dd, n), 'wb') as f:
+			f.write(data)
+	if k == 'notaxa':
+		_apply_schema(['drop:taxa'], os.path.join(dd, DB_FILES[0]))
+	elif k == 'notables':
+		_apply_schema(['file:notables'], os.path.join(dd, DB_FILES[0]))
+	sq['badbytes'][k] = _file_bytes(dd)
+
+
+def _file_bytes(d):
+	"""name -> (SHA-256, size) of the genome / signature files in a directory (side files are not the property's business)"""
+	return {n: (_sha(os.path.join(d, n)), os.path.getsize(os.path.join(d, n))) for n in sorted(os.listdir(d))
+	        if n.endswith(('.gdb', '.db', '.gs', '.h5'))}
 
 
 def _restore_B():
@@ -2563,13 +2856,43 @@ def _seq_step(pool, st, idx):
 			out['status'] = 'raised ' + type(e).__name__
 		return out
 	if op == 'badload':
-		from gambit.db import ReferenceDatabase
+		from gambit.db import ReferenceDatabase, load_genomeset
+		k = st.get('d', 'truncgdb')
+		dd = pool.sq['baddir'][k]
+		via = st.get('via', 'dir')
 		try:
-			r = ReferenceDatabase.load_from_dir(pool.sq['baddir'][st.get('d', 'truncgdb')])
+			if via == 'dir':
+				r = ReferenceDatabase.load_from_dir(dd)
+			else:
+				gdbs = sorted(n for n in os.listdir(dd) if n.endswith('.gdb'))
+				if not gdbs:
+					raise FileNotFoundError('no genome file')
+				if via == 'files':
+					r = ReferenceDatabase.load(os.path.join(dd, gdbs[0]), os.path.join(dd, DB_FILES[1]))
+				elif via == 'gset':
+					session, gset = load_genomeset(os.path.join(dd, gdbs[0]))
+					r = None
+					session.close()
+					session.bind.dispose()
+					del session, gset
+				else:
+					raise ValueError(via)
 			out['status'] = 'ok (the malformed data base was loaded)'
-			_close_rdb(r)
+			if r is not None:
+				_close_rdb(r)
+			del r
 		except Exception as e:
 			out['status'] = 'raised ' + type(e).__name__
+		# a load that fails (or not) is a read-side call all the same: the files it was pointed at keep their bytes
+		gc.collect()
+		was, now = pool.sq['badbytes'][k], _file_bytes(dd)
+		if now != was:
+			diff = [f'{n}: SHA-256 {was[n][0][:12]} -> {now.get(n, ("gone", -1))[0][:12]}, size {was[n][1]} -> {now.get(n, ("gone", -1))[1]}'
+			        for n in was if now.get(n) != was[n]]
+			objs = [_sqlite_objects(os.path.join(dd, n)) for n in was if n.endswith('.gdb') and now.get(n) != was[n]]
+			_make_baddir(pool.sq, k)
+			raise _SeqProblem(f'loading the incomplete / malformed data base directory `{k}` via {via} ({out["status"]}) changed the bytes of its files: '
+			                  + '; '.join(diff) + (f' -- schema objects now in the genome file: {objs[0]}' if objs else ''))
 		return out
 	raise ValueError(op)
 
@@ -2974,6 +3297,116 @@ def _rand_state(rng):
 	return st
 
 
+# incomplete / foreign genome files enumerated by the stream history-dbschema (see _apply_schema for the modifications); the other
+# state dimensions apply as well (a few combinations here, random ones in history-dbschema-random)
+SCHEMA_STATES = [
+	# one model table missing (a file written by a tool that does not store that part; an older file), several, all of them
+	dict(schema=['drop:taxa']), dict(schema=['drop:genomes']), dict(schema=['drop:genome_annotations']), dict(schema=['drop:genome_sets']),
+	dict(schema=['drop:taxa', 'drop:genome_annotations']), dict(schema=['drop:genomes', 'drop:genome_annotations', 'drop:taxa']),
+	dict(schema=['drop:genome_annotations', 'drop:genomes', 'drop:taxa', 'drop:genome_sets']), dict(schema=['drop:alembic_version']),
+	dict(schema=['rename:taxa']), dict(schema=['rename:genome_sets', 'addtable']),
+	# indexes missing, extra objects a foreign tool added
+	dict(schema=['dropindex:ix_taxa_name']), dict(schema=['dropindex:*']), dict(schema=['addtable']), dict(schema=['addcol:genomes']),
+	dict(schema=['addcol:taxa', 'addtable', 'addindex']),
+	# an older / other schema: columns missing, a table re-imported without constraints and indexes
+	dict(schema=['dropcol:taxa.report']), dict(schema=['dropcol:genomes.extra', 'dropcol:genome_sets.extra']), dict(schema=['dropcol:taxa.ncbi_id']),
+	dict(schema=['rebuild:taxa']), dict(schema=['rebuild:genomes', 'dropcol:genome_annotations.organism']),
+	# the tables are there, the rows are not what a reference data base has
+	dict(schema=['norows:genome_sets']), dict(schema=['twosets']), dict(schema=['norows:genome_annotations', 'drop:taxa']),
+	# not a reference data base at all, under the .gdb name
+	dict(schema=['file:zero']), dict(schema=['file:notables']), dict(schema=['file:garbage']), dict(schema=['file:truncated']),
+	dict(schema=['file:foreign']), dict(schema=['file:schema-only']), dict(schema=['file:schema-only', 'drop:taxa']),
+	# ... combined with the other dimensions of the persistent state
+	dict(schema=['drop:taxa'], jm='wal'), dict(schema=['file:notables'], jm='wal', sidecar='ckpt'), dict(schema=['drop:genome_annotations'], page=512, av=1),
+	dict(schema=['file:zero'], sig='latest'), dict(schema=['drop:genomes', 'addtable'], enc='utf16le'), dict(schema=['file:foreign'], jm='persist', edit='desc'),
+	dict(schema=['drop:genome_sets'], ro='file'),
+]
+
+
+def _schema_loads():
+	"""the library's ways to load a data base (or its genome file alone), with the things a client does next"""
+	return [
+		dict(cmd='load', via='dir', n=2),
+		dict(cmd='load', via='files', n=1, libquery=True, close=True),
+		dict(cmd='load', via='gset', n=3, commit=True),
+		dict(cmd='load', via='cli', n=2, libquery=True),
+		dict(cmd='load', via='located', n=1, commit=True, mut=[[0, 0, 3, 0]]),
+		dict(cmd='load', via='gset', n=1, fail=dict(kind='sql', at=1)),
+		dict(cmd='load', via='files', n=1, fail=dict(kind='sql', at=3)),
+		dict(cmd='load', via='dir', n=1, libquery=True, commit=True, mut=[[3, 1, 100, 1]], close=True, mut_after_close=5),
+	]
+
+
+def _schema_clis():
+	return [
+		dict(cmd='querysig'), dict(cmd='query', n=1, q=[0], fmt='csv'), dict(cmd='dist', n=1, q=[1]), dict(cmd='info-db', flags=['-j']),
+		dict(cmd='querysig', fail=dict(kind='sql', at=2)), dict(cmd='query', n=1, q=[2], fmt='json', fail=dict(kind='badfile')),
+	]
+
+
+def _schema_sessions():
+	return [
+		dict(cmd='libsession', how='default', af=1, ops=_mk_ops(['q', 'a', 'm1', 'q', 'f', 'c', 't', 'r'])),
+		dict(cmd='libsession', how='explicit', af=0, ops=_mk_ops(['a', 'f', 'q', 't', 'c'])),
+		dict(cmd='libsession', how='cli', af=1, ops=_mk_ops(['m2', 'd3', 'q', 'c', 'f', 'x'])),
+	]
+
+
+def _rand_schema(rng):
+	"""a random incomplete / foreign genome file"""
+	tables = list(MODEL_TABLES)
+	r = rng.random()
+	if r < 0.15:
+		return ['file:' + rng.choice(SCHEMA_RAW_FILES)]
+	mods = []
+	if r < 0.35:
+		mods.append('file:' + rng.choice(SCHEMA_SQLITE_FILES))
+	for _ in range(rng.randint(0 if mods else 1, 3)):
+		k = rng.random()
+		if k < 0.40:
+			mods.append('drop:' + rng.choice(tables + ['taxa', 'alembic_version']))
+		elif k < 0.50:
+			mods.append('dropindex:' + rng.choice(['*', 'ix_taxa_name', 'ix_genome_sets_key', 'ix_genome_annotations_taxon_id', 'ix_taxa_parent_id']))
+		elif k < 0.60:
+			mods.append(rng.choice(['addtable', 'addindex', 'addcol:' + rng.choice(tables)]))
+		elif k < 0.72:
+			mods.append('dropcol:' + rng.choice(SCHEMA_DROPCOLS))
+		elif k < 0.80:
+			mods.append('rename:' + rng.choice(tables))
+		elif k < 0.88:
+			mods.append('rebuild:' + rng.choice(tables))
+		elif k < 0.95:
+			mods.append('norows:' + rng.choice(tables))
+		else:
+			mods.append('twosets')
+	return mods
+
+
+def _rand_schema_state(rng):
+	schema = _rand_schema(rng)
+	st = _rand_state(rng) if rng.random() < 0.4 else {}
+	if schema[0][5:] in SCHEMA_RAW_FILES:
+		st = {k: v for k, v in st.items() if k in ('ro', 'sig')}      # no SQLite file: its other dimensions do not exist
+	st['schema'] = schema
+	return st
+
+
+def _rand_schema_inv(rng):
+	if rng.random() < 0.55:
+		inv = dict(cmd='load', via=rng.choice(['dir', 'files', 'gset', 'gset', 'cli', 'located']), n=rng.randint(1, 3))
+		if inv['via'] != 'gset':
+			inv['libquery'] = rng.random() < 0.4
+			if rng.random() < 0.4:
+				inv['mut'] = [[rng.randrange(NSEL), rng.randrange(NMUT), rng.randrange(0, 213), rng.randrange(0, 8)]]
+			inv['close'] = rng.random() < 0.4
+		if rng.random() < 0.4:
+			inv['commit'] = True
+		if rng.random() < 0.2:
+			inv['fail'] = dict(kind='sql', at=rng.randint(1, 6))
+		return inv
+	return _rand_state_inv(rng)
+
+
 def _rand_state_inv(rng):
 	"""like _rand_inv, without the commands that do not go near the data base directory / are expensive (tree)"""
 	while True:
@@ -3063,7 +3496,7 @@ def _rand_step(rng, step, with_w):
 			st['thread'] = 1
 		return st
 	if r < 0.92:
-		return rng.choice([dict(op='badopen', f=rng.choice(SEQ_BAD_FILES)), dict(op='badload', d=rng.choice(SEQ_BAD_DIRS))])
+		return rng.choice([dict(op='badopen', f=rng.choice(SEQ_BAD_FILES)), dict(op='badload', d=rng.choice(SEQ_BAD_DIRS), via=('dir', 'files', 'gset')[step % 3])])
 	if r < 0.95:
 		return dict(op='edit', db=db, via=rng.choice(['dir', 'files', 'cli']), i=rng.randrange(150), v=rng.randrange(1, 50), flush=rng.choice([0, 1]),
 		            commit=rng.choice([0, 1]))
@@ -3141,7 +3574,8 @@ def _fixed_seqs():
 		# malformed files in between
 		out.append([dict(op='badopen', f='trunc'), dict(op='store', f=X, slot=0, ops=[[0, -1], [2, 0, 5], [1, 1]]), dict(op='badopen', f='nothdf'),
 		            dict(op='cli', db=X, inv=dict(cmd='info-file', flags=[])), dict(op='badload', d='truncgs'), dict(op='query', db=X, via='dir', q=q2, p=0)])
-		out.append([dict(op='badload', d='truncgdb'), dict(op='query', db=X, via='files', q=q1, p=0), dict(op='badload', d='twogdb'), dict(op='badopen', f='missing'),
+		out.append([dict(op='badload', d='zerogdb' if X == 'A' else 'truncgdb', via='files'), dict(op='query', db=X, via='files', q=q1, p=0),
+		            dict(op='badload', d='twogdb' if X == 'A' else 'notables', via='dir'), dict(op='badopen', f='missing'), dict(op='badload', d='notaxa', via='gset'),
 		            dict(op='sess', db=Y, how='default', af=1, slot=0, ops=[[1, 1, 3], [5], [4], [3]]), dict(op='query', db=X, via='files', q=q1, p=0)])
 		# one CLI context: data base objects and sessions from it, closed and obtained again
 		out.append([dict(op='query', db=X, via='cli', q=q1, p=0), dict(op='sess', db=X, how='cli', af=1, slot=0, ops=[[0, ADD_BASE + 1001, 1], [3], [5]]),
@@ -3308,6 +3742,29 @@ def generate(ctx):
 	for _ in range(ctx.pick(10, 150)):
 		yield 'history', dict(state=_rand_state(rng), invs=[_rand_state_inv(rng) for _ in range(rng.randint(2, ctx.pick(3, 5)))])
 		ctx.count('stream:history-dbstate-random')
+	# ---- histories against an INCOMPLETE / FOREIGN genome file (a model table / an index / a column missing, unknown tables and
+	# columns, no or two genome sets, a zero-byte / non-SQLite / truncated / empty / foreign SQLite file under the .gdb name):
+	# the library's ways to load a data base, CLI commands, sessions -- most of them FAIL there; bytes compared after each ----
+	loads, clis, sess = _schema_loads(), _schema_clis(), _schema_sessions()
+	n = 0
+	for k, st in enumerate(SCHEMA_STATES):
+		j = k + ctx.seed
+		if ctx.pick(1, 0):
+			# quick: one CLI command, one session, three of the eight loads (always >= 2 entry points, >= 1 of them load_genomeset /
+			# ReferenceDatabase.load / load_from_dir), rotating with the state index and the seed
+			invs = [clis[j % len(clis)], loads[j % len(loads)], sess[j % len(sess)], loads[(j + 3) % len(loads)], loads[(j + 5) % len(loads)]]
+		else:
+			invs = loads[j % len(loads):] + loads[:j % len(loads)] + clis + sess
+			invs = invs[:3] + [clis[j % len(clis)]] + invs[3:]
+		yield 'history', dict(state=json.loads(json.dumps(st)), invs=[json.loads(json.dumps(i)) for i in invs])
+		n += 1
+	ctx.count('stream:history-dbschema', n)
+	ctx.extra['exhaustive_scope'] += (f'; history-dbschema: each of {len(SCHEMA_STATES)} incomplete / foreign genome files x '
+	                                  f'{"every one" if not ctx.pick(1, 0) else "5"} of {len(loads) + len(clis) + len(sess)} read-side uses '
+	                                  f'({len(loads)} library loads through load_from_dir / load / locate_files + load / load_genomeset / CLIContext.get_database)')
+	for _ in range(ctx.pick(14, 200)):
+		yield 'history', dict(state=_rand_schema_state(rng), invs=[_rand_schema_inv(rng) for _ in range(rng.randint(2, ctx.pick(4, 6)))])
+		ctx.count('stream:history-dbschema-random')
 	trees = ctx.pick(2, 8)
 	for _ in range(ctx.pick(36, 200)):
 		invs = []
